@@ -109,6 +109,8 @@ def run_case(case, rep=None, count_only=False):
         vkey = Built(spec).inst('v').cache_key
         if kill['kind'] == 'line':
             tplan['v']['inject'] = {'k': (None if count_only else kill['k']), 'action': kill.get('sig', 'kill')}
+            if kill.get('sig') == 'park':
+                tplan['b'] = {}
         else:
             default['storage_fault'] = {'op': ('count' if count_only else kill['op']), 'j': kill.get('j', 0),
                                         'file': kill.get('file'), 'gen': 1, 'sync': kill.get('sync', False), 'key': vkey}
@@ -136,6 +138,45 @@ def run_case(case, rep=None, count_only=False):
                 _, status = os.waitpid(pid, 0)
                 out['died'] = os.WIFSIGNALED(status)
                 out['rc'] = -os.WTERMSIG(status) if os.WIFSIGNALED(status) else os.WEXITSTATUS(status)
+        elif kill.get('sig') == 'park' and not count_only:
+            # the real "terminate on second interrupt" path: the worker parks at line k of its save, the caller
+            # gets two Ctrl-C (SIGINT to itself), Runner.stop() terminates the parked worker
+            import threading
+            import time
+            flag = {'done': False, 'sent': 0}
+
+            def interrupter():
+                deadline = time.monotonic() + 8
+                while time.monotonic() < deadline and not flag['done']:
+                    if any(e['k'] == 'inj-fire' for e in events.read_events(ctl)[pre:]):
+                        for _ in range(2):
+                            if flag['done']:
+                                return
+                            flag['sent'] += 1
+                            os.kill(os.getpid(), signal.SIGINT)
+                            time.sleep(0.3)
+                        return
+                    time.sleep(0.01)
+            th = threading.Thread(target=interrupter, daemon=True)
+            signal.signal(signal.SIGINT, signal.default_int_handler)
+            res = {}
+            try:
+                th.start()
+                try:
+                    res = victim_run(case, ctl, store, spec)
+                except KeyboardInterrupt:
+                    out['interrupted'] = True
+                finally:
+                    flag['done'] = True
+                    signal.signal(signal.SIGINT, signal.SIG_IGN)
+                th.join(2)
+            except KeyboardInterrupt:
+                pass
+            finally:
+                signal.signal(signal.SIGINT, signal.SIG_IGN)
+            time.sleep(0.2)
+            engine.reap_children()
+            signal.signal(signal.SIGINT, signal.default_int_handler)
         else:
             try:
                 res = victim_run(case, ctl, store, spec)
@@ -160,7 +201,7 @@ def run_case(case, rep=None, count_only=False):
         if count_only:
             return out
         if case['backend'] == 'fork':
-            out['died'] = out['fired'] is not None
+            out['died'] = out['fired'] is not None and (kill.get('sig') != 'park' or out.get('interrupted', False))
         if not out['died'] or not out['fired']:
             out['died'] = False
             return out
@@ -246,6 +287,9 @@ def enumerate_cases(rep, stride, n_fresh):
                     if backend == 'serial':
                         for k in range(1, n + 1, max(1, n // 6)):
                             cases.append(dict(cfg, kill={'kind': 'line', 'k': k, 'sig': 'term'}))
+                    elif shape == 'small':
+                        for k in range(3, n + 1, max(1, n // (3 if stride > 1 else 24))):
+                            cases.append(dict(cfg, kill={'kind': 'line', 'k': k, 'sig': 'park'}))
                     c = run_case(dict(cfg, backend='serial', kill={'kind': 'storage', 'op': 'count'}), count_only=True)
                     for fn, nw in c['writes'].items():
                         js = list(range(1, nw + 1)) if nw <= 30 else sorted(set(list(range(1, 8)) + list(range(8, nw + 1, max(1, nw // 12))) + [nw]))
@@ -278,7 +322,8 @@ def run_shard(rep):
             continue
         rep.case(json.dumps(case, sort_keys=True), True)
         rep.count('kills_delivered')
-        rep.count(f"kills_{case['kill']['kind']}_{case['backend']}" + ('_fresh' if case.get('fresh_interpreter') else ''))
+        rep.count(f"kills_{case['kill']['kind']}_{case['backend']}" + ('_fresh' if case.get('fresh_interpreter') else '')
+                  + ('_terminate_on_second_interrupt' if case['kill'].get('sig') == 'park' else ''))
         rep.seen('kill_sites', f"{r['fired'].get('file')}:{r['fired'].get('func')}")
         rep.seen('post_kill_signatures', f"{case['mode']}:{r.get('signature')}")
         seen = set()
